@@ -78,7 +78,9 @@ template<class C, class Proj> static bool postfix_in_child(const C& c, Proj proj
 
 // c: the object through a const reference; mut: the same object for the non-const begin() (nullptr if the family has none);
 // n: what the family reports as the number of retained entries (nlo..nhi where only a range is known)
+static std::string g_only = "all";   // --family: record only the families whose name starts with this (one file per family: one defect does not hide another)
 template<class C, class Proj> static void probe(const char* fam, const char* state, const C& c, C* mut, long nlo, long nhi, Proj proj) {
+  if (g_only != "all" && std::string(fam).compare(0, g_only.size(), g_only) != 0) return;
   std::vector<std::string> pre, rf, nc;
   { reseed(); auto it = c.begin(); const auto end = c.end(); while (it != end) { pre.push_back(proj(*it)); ++it; } }
   { reseed(); for (auto&& e : c) rf.push_back(proj(e)); }
@@ -94,14 +96,14 @@ template<class C, class Proj> static void probe(const char* fam, const char* sta
 }
 
 static std::string el(const std::string& a, const std::string& b) { return "[" + a + "," + b + "]"; }
-static std::string I(long long v) { return std::to_string(v); }
+// values are keys / weights / counters of small test objects; anything else (garbage read through a broken iterator) is logged as a sentinel
+static std::string I(long long v) { return std::to_string(v > 2000000000LL ? 2000000001LL : v < -2000000000LL ? -2000000001LL : v); }
 
 // ---- families -------------------------------------------------------------------------------------------------------
 static const char* STATES[] = {"empty", "one", "exact", "estimating", "merged"};
 static long size_of(int st, long k, vt::Rng& g) { return st == 0 ? 0 : st == 1 ? 1 : st == 2 ? std::max(2L, k / 2) : (long)g.range(3 * k, 9 * k); }
 
 static void theta_family(vt::Rng& g) {
-  Ev("Begin").str("group", "theta").emit();
   auto th = [](const uint64_t& h) { return el(Ev::htok(h), "0"); };
   auto tu = [](const std::pair<uint64_t, double>& e) { return el(Ev::htok(e.first), "0"); };
   for (int st = 0; st < 5; st++) {
@@ -134,7 +136,6 @@ static void theta_family(vt::Rng& g) {
 }
 
 static void quantiles_family(vt::Rng& g) {
-  Ev("Begin").str("group", "quantiles").emit();
   auto q = [](const std::pair<const float&, const uint64_t>& e) { return el(I(std::llround((double)e.first * 8.0)), I((long long)e.second)); };
   auto dn = [](const std::pair<const std::vector<float>&, const uint64_t>& e) { return el(I(std::llround((double)e.first[0] * 8.0)), I((long long)e.second)); };
   for (int st = 0; st < 5; st++) {
@@ -154,7 +155,6 @@ static void quantiles_family(vt::Rng& g) {
 }
 
 static void sampling_family(vt::Rng& g) {
-  Ev("Begin").str("group", "sampling").emit();
   auto vo = [](const std::pair<const int&, const double>& e) { return el(I(e.first), Ev::dtok(e.second)); };
   auto eb = [](const int& e) { return el(I(e), "0"); };
   auto cmv = [](const uint64_t& v) { return el(I((long long)v), "0"); };
@@ -185,13 +185,12 @@ int main(int argc, char** argv) {
   vt::install_terminate();
   uint64_t seed = (uint64_t)vt::argl(argc, argv, "--seed", 1);
   int rounds = (int)vt::argl(argc, argv, "--rounds", 2);
-  const std::string group = vt::arg(argc, argv, "--group", "all");
+  g_only = vt::arg(argc, argv, "--family", "all");
   vt::open_out(vt::arg(argc, argv, "--out", "/dev/stdout"));
   vt::Rng g(seed);
   for (int r = 0; r < rounds; r++) {
-    if (group == "all" || group == "theta") theta_family(g);
-    if (group == "all" || group == "quantiles") quantiles_family(g);
-    if (group == "all" || group == "sampling") sampling_family(g);
+    Ev("Begin").str("group", g_only).i("round", r).emit();
+    theta_family(g); quantiles_family(g); sampling_family(g);
   }
   vt::close_out();
   fprintf(stderr, "x_iter(%s): %ld events\n", BUILD, vt::g_events);
